@@ -189,6 +189,10 @@ def run_property(prop: str, rules: list[Rule], explanation: str, assumptions: li
             print(f"[{prop}] sql: {len(m.census.sites)} call sites, {len(m.stmts)} statements compiled, "
                   f"{len(m.cat.triggers)} triggers, {len(m.cat.tables)} tables, "
                   f"{m.tolerated_variants()} path-insensitive SELECT variants tolerated", file=out)
+    if audit_stats is not None and not quiet:
+        print(f"[{prop}] sensitivity audit: {audit_stats['mutants_killed']}/{audit_stats['mutants_generated']} mutants detected, "
+              f"{audit_stats['variants_silent']}/{audit_stats['variants_checked']} behaviour-preserving variants silent, "
+              f"not applicable on this tree: {audit_stats['skipped_not_applicable']}", file=out)
     for inst, k in known_hits:
         print(f"KNOWN-FINDING: property={prop} {inst.rule} {inst.site}: {inst.construct}: {inst.reason} [{k.get('id', '')}]", file=out)
 
